@@ -347,6 +347,12 @@ Edits(b) ==
 RBases(name) == CASE name = "RestrQ" -> GroupsOver(ElemLeaves({"a", "b"}, OccSmall), {"s", "c"}, OccSmall)
                   [] name = "Restr1" -> Depth1Set(0)
                   [] name = "Restr2" -> Depth2QSet(0)
+                  [] name = "RestrA" ->      \* xs:all groups of 2-3 distinct elements
+                       LET O2 == {<<1, 1>>, <<0, 1>>}
+                           la == ElemLeaves({"a"}, O2)  lb == ElemLeaves({"b"}, O2)  lc == ElemLeaves({"c"}, O2)
+                       IN {<<"a", ks, o[1], o[2]>> :
+                             ks \in {<<x, y>> : x \in la, y \in lb} \cup {<<x, y, z>> : x \in la, y \in lb, z \in lc},
+                             o \in O2}
 (* a shard: the bases of one group kind and occurrence range (TLC evaluates   *)
 (* the set of initial states single-threaded, so the harness runs shards in   *)
 (* parallel)                                                                  *)
